@@ -23,7 +23,7 @@ def run(ctx):
     # preemption-bounded systematic search (every schedule with <= 1 preemption, yields before and after each operation)
     searches = [(p, 1, 250 if ctx.quick else 6000, {"post_yields": True}) for p in progs[: 6 if ctx.quick else 14]]
     life = gc.chanlife_part(ctx, ["C10."], 3 if ctx.quick else 5)
-    res = gc.run_and_judge(ctx, jobs, ["C10."], lambda evs: sum(1 for e in evs if e["ev"] == "cb") >= 2, (lambda r, vd: "dropped-callback-channel-no-close" if vd == "C10.dropped-callback-channel-never-closed-by-the-peer" else None), searches=searches)
+    res = gc.run_and_judge(ctx, jobs, ["C10."], lambda evs: sum(1 for e in evs if e["ev"] == "cb") >= 2, None, searches=searches)
     gwrun.close_pool()
     ctx.coverage.update({
         "states": mc["states"], "transitions": mc["transitions"],
